@@ -164,6 +164,10 @@ func (c *caseT) op() {
 		c.emit(fx.M{"op": "stake", "acct": a, "denom": d, "amt": json.Number(amt.String())}, e)
 	case x < 6: // unstake
 		d := denoms[r.Intn(len(denoms))]
+		if al := rk.GetParams(c.ctx).AllowedDenoms; len(al) > 0 && r.Chance(2, 3) {
+			// mostly a denom that still counts as power (the account may also hold coins of a denom no longer allowed)
+			d = al[r.Intn(len(al))]
+		}
 		have := rk.GetStake(c.ctx, acc.Address).Coins.AmountOf(d)
 		amt := c.reduceAmt(a, have)
 		if r.Chance(1, 10) {
@@ -287,7 +291,7 @@ func runCase(app *fx.App, tr *fx.Trace, r *fx.Rng) {
 	}
 	tr.Reset(fx.M{"naccts": len(c.accts), "nvals": len(bandtesting.Validators), "denoms": denoms, "vaultKeys": vaultKeys,
 		"allowed": allowed, "deleg": deleg, "bal": bal})
-	n := r.Range(8, 40)
+	n := r.Range(10, 60)
 	for i := 0; i < n; i++ {
 		c.op()
 	}
